@@ -152,6 +152,15 @@ func c07Gen(g *fw.GenCtx) []fw.Case {
 			add("pairs", n, "V().both().range(3,10).count()", q.V().Both().Range(3, 10).Count().Statements, 1, -1)
 			add("pairs", n, "V().distinct(_label).both()", q.V().Distinct("_label").Both().Statements, -1, -1)
 		}
+		// a satisfied limit behind a step that has thousands of rows left to deliver: the
+		// rows are the first k, the stream closes, and the steps before the limit end too
+		if n == 12000 || (!g.Quick() && n >= 999) {
+			add("star", n, "V(hub).out().limit(3)", q.V("hub").Out().Limit(3).Statements, 3, -1)
+			add("star", n, "V(hub).outE().limit(3)", q.V("hub").OutE().Limit(3).Statements, 3, -1)
+			add("star", n, "V(hub).both().range(2,5).count()", q.V("hub").Both().Range(2, 5).Count().Statements, 1, -1)
+			add("star", n, "V(hub).out().in().limit(1)", q.V("hub").Out().In().Limit(1).Statements, 1, -1)
+			add("star", n, "V(hub).outE().out().limit(10).count()", q.V("hub").OutE().Out().Limit(10).Count().Statements, 1, -1)
+		}
 		// cancellation while the consumer keeps draining
 		for _, cancelAt := range []int{0, 1, 100, 5001} {
 			if cancelAt > 2*n && cancelAt > 1 {
@@ -316,7 +325,7 @@ func maxInt(a, b int) int {
 func init() {
 	fw.Register(&fw.Property{
 		ID:   "C07",
-		Rule: "graph shapes with closed-form answers (cycle, star with spokes in both directions, disjoint pairs) at N in {0,1,99,100,101,999,1000,1001,2500,4999,5000,5001,12000} vertices/spokes - several multiples of every internal capacity (100, 1000, 5000); traversals: every single step and every ordered pair of 16 fan-out/fan-in steps (out, in, both, outE, inE, bothE, as..select, unwind on a 3-list, has, fields, distinct, count, aggregate with 1 and 3 aggregations, render, path) after V(), plus limit/range mid-stream and star/pairs traversals; cancellation of the context after 0, 1, 100, 5001 rows while the consumer keeps draining. Quick covers sizes <= 2500 (a rotating sixth of the step pairs) plus the 5001 cases of the fan-out steps; thorough covers everything. Oracle: the result channel closes (a non-closing run is a violation only with a deadlock certificate: every engine goroutine blocked on channel operations, identical in two snapshots), the row count equals the closed form, fewer than 10x the bound rows are streamed, and afterwards no engine goroutine and no kvTmp* directory is left. Non-trivial = N > 0.",
+		Rule: "graph shapes with closed-form answers (cycle, star with spokes in both directions, disjoint pairs) at N in {0,1,99,100,101,999,1000,1001,2500,4999,5000,5001,12000} vertices/spokes - several multiples of every internal capacity (100, 1000, 5000); traversals: every single step and every ordered pair of 16 fan-out/fan-in steps (out, in, both, outE, inE, bothE, as..select, unwind on a 3-list, has, fields, distinct, count, aggregate with 1 and 3 aggregations, render, path) after V(), plus limit/range mid-stream and star/pairs traversals, and limit/range right behind a hub with 12000 spokes (the steps before a satisfied limit must end as well); cancellation of the context after 0, 1, 100, 5001 rows while the consumer keeps draining. Quick covers sizes <= 2500 (a rotating sixth of the step pairs) plus the 5001 cases of the fan-out steps; thorough covers everything. Oracle: the result channel closes (a non-closing run is a violation only with a deadlock certificate: every engine goroutine blocked on channel operations, identical in two snapshots), the row count equals the closed form, fewer than 10x the bound rows are streamed, and afterwards no engine goroutine and no kvTmp* directory is left. Non-trivial = N > 0.",
 		Assumptions: []string{
 			"'always finishes' is restated as bounded progress: closure within the explored sizes; a watchdog firing without a certificate is inconclusive",
 			"'any data volume' is explored up to 12000 rows per step, not beyond",
